@@ -1,6 +1,7 @@
 """C12 - monotonic_prop classifies every vector correctly and never calls NaN data rising."""
 from .common import *
 from ..absint import *
+from ..absint import _vkey
 
 LEVEL = 'proof'
 
@@ -61,6 +62,13 @@ class MonoModel(Model):
                 return Obj('windows_iter', of=a0)
             if last == 'iter' and isinstance(a0, Obj) and a0.kind == 'vec':
                 return Obj('veciter', off=0)
+            if last in ('index',) and isinstance(a0, Obj) and a0.kind == 'vec' and getattr(self, 'index_base', None) is not None:
+                idx = deref_all(args[1])
+                off = (idx.r - Rat.atom('i')).as_poly().const_value() if isinstance(idx, Num) and (idx.r - Rat.atom('i')).is_poly() and \
+                    (idx.r - Rat.atom('i')).as_poly().is_const() else None
+                if off is not None and off - self.index_base in (0, 1):
+                    return Ref(ValPlace(Num(Rat.atom('w%d' % int(off - self.index_base)))))
+                raise Unsupported("element %r read in a loop over neighbouring positions" % (idx,), e)
             if last in ('index',) and isinstance(a0, Obj) and a0.kind == 'window':
                 i = deref_all(args[1]).const()
                 if i in (0, 1):
@@ -106,6 +114,15 @@ def _element_of(self, it, e):
         self.elem = lambda: Tup([Ref(ValPlace(Num(Rat.atom('w%d' % o[0])))), Ref(ValPlace(Num(Rat.atom('w%d' % o[1]))))])
         self.elem_by_value = self.elem
         return
+    if isinstance(it, Enum) and it.adt == 'std::ops::Range':
+        # positions i with the neighbours read by index: 0..len-1 reading (i, i+1), or 1..len reading (i-1, i)
+        s_, e_ = deref_all(it.fields['start']), deref_all(it.fields['end'])
+        if isinstance(s_, Num) and isinstance(e_, Num) and s_.const() in (0, 1) and str(e_.r - s_.r) == str(Rat.atom('len') - 1):
+            self.index_base = 0 if s_.const() == 0 else -1
+            self.elem = lambda: Num(Rat.atom('i'))
+            self.elem_by_value = self.elem
+            return
+        raise Unsupported("loop over positions %r .. %r is not the range of neighbouring pairs of the vector" % (s_, e_), e)
     raise Unsupported("fold / loop over something other than the neighbouring pairs of the vector "
                       "(windows(2) or iter().zip(iter().skip(1))): %r" % (it,), e)
 
@@ -116,19 +133,45 @@ MonoModel.element_of = _element_of
 def _mono_for_loop(self, iterable, pat, body, frame, e):
     it = deref_all(iterable)
     self.element_of(it, e)
-    from ..thir import walk
-    carried = set()
-    for x in walk(body):
-        if x.get('k') == 'Assign' and x['l'].get('k') in ('Var', 'Upvar'):
-            carried.add(x['l']['var'])
-    if len(carried) != 1:
-        raise Unsupported("the fold loop carries %s (expected exactly one state variable)" % sorted(carried), e)
-    var = list(carried)[0]
     if self.loop_result is not None:
-        frame.assign(var, self.loop_result)
+        for var, val in self.loop_result.items():
+            frame.assign(var, val)
         return Unit()
-    self.loopinfo = (pat, body, frame, var, frame.lookup(var))
+    self.loopinfo = (pat, body, frame, LoopState.of(frame))
     raise StopRun()
+
+
+class LoopState(dict):
+    """the loop-carried state, found semantically: the values of all data-valued variables visible at the loop (a variable
+    the body never changes is a constant component).  Variables are updated by assignment, through `&mut self` methods, ..."""
+    @staticmethod
+    def of(frame):
+        import copy
+        chain = []
+        f = frame
+        while f is not None:
+            chain.append(f)
+            f = f.parent
+        st = LoopState()
+        for f in reversed(chain):
+            for var, v in f.vars.items():
+                if isinstance(v, (Enum, B, Num, Tup)) and _plain(v):
+                    st[var] = copy.deepcopy(v)
+        return st
+
+    def key(self):
+        return tuple(sorted((var, _vkey(v)) for var, v in self.items()))
+
+    def __repr__(self):
+        return "{%s}" % ', '.join('%s=%r' % (var.split('#')[0], v) for var, v in sorted(self.items()))
+
+
+def _plain(v):
+    if isinstance(v, Tup):
+        return all(_plain(x) for x in v.items)
+    if isinstance(v, Enum):
+        return all(_plain(x) for x in v.fields.values())
+    return isinstance(v, (B, Num))
 
 
 MonoModel.for_loop = _mono_for_loop
@@ -191,7 +234,7 @@ def analyse(chk, lib, set_text=True):
         chk.ob('R12.2', "monotonic_prop folds over windows(2) (neither try_fold nor a loop was reached)", False, body['span'], 'glue-shape')
         return
     if loop_form:
-        lpat, lbody, lframe, lvar, init = m.loopinfo
+        lpat, lbody, lframe, init = m.loopinfo
         clo = None
     else:
         init, clo = m.fold
@@ -215,15 +258,18 @@ def analyse(chk, lib, set_text=True):
         for f in reversed(chain):
             for k_, v_ in f.vars.items():
                 fr2.bind(k_, v_)
-        fr2.bind(lvar, state)
+        import copy as _copy
+        for var_, val_ in state.items():
+            fr2.bind(var_, _copy.deepcopy(val_))
         if not it.match_pat(lpat, ValPlace(m.elem()), fr2):
             raise Unsupported("loop pattern over the neighbouring pairs")
         try:
             it.eval(lbody, fr2)
-            return ('ok', deref_all(fr2.lookup(lvar)))
+            after = LoopState.of(fr2)
+            return ('ok', LoopState({v_: after[v_] for v_ in state if v_ in after}))
         except ReturnEx as r:
             return ('err', deref_all(r.v))
-    chk.ob('R12.2', "fold starts in a state value (%r)" % (init,), isinstance(init, Enum), body['span'], 'init-state')
+    chk.ob('R12.2', "fold starts in a state value (%r)" % (init,), isinstance(init, (Enum, LoopState)), body['span'], 'init-state')
 
     # ---- explore the automaton through the closure itself
     states = {}     # key -> value
@@ -256,7 +302,7 @@ def analyse(chk, lib, set_text=True):
                 chk.ob('R12.1', "fold step on state %r, relation %s is comparison-only and total: %s" % (states[k], rel, ex),
                        False, ex.where or body['span'], 'step-%s-%s' % (states[k], rel))
                 return
-            if kind == 'ok' and isinstance(r, Enum):
+            if kind == 'ok' and isinstance(r, (Enum, LoopState)):
                 k2 = add(r)
                 trans[(k, rel)] = ('ok', k2)
                 table_rows.append("%r --%s--> %r" % (states[k], rel, states[k2]))
